@@ -179,19 +179,26 @@ def chain(report, db, cg, M):
                          he.qualname, 'the reactor\'s handle_exception is '
                          'not consulted first')
 
-    # ---- the handler loop
+    # ---- the handler loop: the loop whose body calls its loop variable
     fors = [n for n in live if n.kind == 'for']
-    if len(fors) != 1:
-        raise AnalysisError('_handle_exception: expected one handler loop',
+    head = None
+    hvar = tvar = None
+    for cand in fors:
+        tg = cand.ast.target
+        names = [tg.id] if isinstance(tg, ast.Name) else (
+            [e.id for e in tg.elts if isinstance(e, ast.Name)]
+            if isinstance(tg, ast.Tuple) else [])
+        inner = [n for n in live if cand.ast in n.loops]
+        for nm in names:
+            if any(isinstance(c.func, ast.Name) and c.func.id == nm
+                   for n in inner for c in n.calls()):
+                head, hvar = cand, nm
+                rest = [x for x in names if x != nm]
+                tvar = rest[0] if rest else None
+    if head is None:
+        raise AnalysisError('_handle_exception: handler loop not found',
                             he.node, rel(he.path))
-    head = fors[0]
     loop = head.ast
-    if not (isinstance(loop.target, ast.Tuple) and len(loop.target.elts) == 2
-            and ast.unparse(loop.iter).startswith(me + '.')):
-        raise AnalysisError('_handle_exception: loop is not `for handler, '
-                            'types in self.<handlers>`', loop, rel(he.path))
-    hvar, tvar = [e.id for e in loop.target.elts]
-    hl_attr = ast.unparse(loop.iter).split('.', 1)[1]
     body = [n for n in live if loop in n.loops]
     hcalls = [n for n in body if any(
         isinstance(c.func, ast.Name) and c.func.id == hvar
@@ -211,20 +218,45 @@ def chain(report, db, cg, M):
         report.violation(R2, 'chain:handler-args', he.path, call,
                          he.qualname, 'the handler is not called with the '
                          'current (exc, exc_info)')
-    # guard = not types or isinstance(exc, types)
+    # guard = not types or isinstance(exc, types), evaluated per handler
+    # against the *current* exception
     conds = [(e, t) for e, t in boolfn.path_conditions(g, hc)
-             if tvar in ast.unparse(e)]
-    ref = ast.parse('not %s or isinstance(%s, %s)' % (tvar, exc, tvar),
-                    mode='eval').body
-    guard = conds and boolfn.same_function(
-        _conj(conds), ref)
+             if 'isinstance' in ast.unparse(e)
+             or (tvar and tvar in ast.unparse(e))]
+    guard = False
+    if tvar is not None:
+        ref = ast.parse('not %s or isinstance(%s, %s)' % (tvar, exc, tvar),
+                        mode='eval').body
+        guard = bool(conds) and boolfn.same_function(_conj(conds), ref)
     if guard:
         report.ok(R2, 'guard: not types or isinstance(exc, types)')
     else:
         report.violation(R2, 'chain:guard', he.path, hc.ast, he.qualname,
-                         'the handler call is not guarded by `not exc_types '
-                         'or isinstance(exc, exc_types)` (found: %s)'
+                         'the handler call is not guarded, inside the loop, '
+                         'by `not exc_types or isinstance(exc, exc_types)` '
+                         'of that handler (found: %s): filters are not '
+                         'matched against the exception each handler '
+                         'actually receives'
                          % (ast.unparse(_conj(conds)) if conds else 'none'))
+    # after a handler raised, the replacement must pass the next handler's
+    # own filter: no path from the rebinding to a handler call that skips an
+    # isinstance test of the current exception
+    rebinds = [s2 for s2, l in hc.succ if l == 'exc' and s2.kind == 'handler']
+    tests_ = [n for n in body if n.kind == 'test'
+              and 'isinstance(%s' % exc in ast.unparse(n.ast)]
+    for rb in rebinds:
+        if g.exists_path(rb, lambda n: n is hc,
+                         avoid=lambda n: n in tests_) is not None:
+            report.violation(R2, 'chain:stale-filter', he.path, rb.ast,
+                             he.qualname, 'after a handler raised, the '
+                             'replacement exception reaches the next handler '
+                             'without that handler\'s type filter being '
+                             'evaluated against it')
+            break
+    else:
+        if rebinds:
+            report.ok(R2, 'a replacement exception is re-matched against '
+                      'each later handler\'s filter')
     # normal completion leaves the loop
     back = g.exists_path(hc, lambda n: n is head,
                          labels=('next', 'true', 'false', 'continue',
@@ -481,8 +513,25 @@ def registration(report, db, cg, M):
                     'all existing handlers, otherwise appends')
     reg = M.conn_method('register_exception_handler')
     he = M.conn_method('_handle_exception')
-    loop = [n for n in ast.walk(he.node) if isinstance(n, ast.For)][0]
-    attr = ast.unparse(loop.iter).split('.', 1)[1]
+    attrs = set()
+    for n in ast.walk(reg.node):
+        if isinstance(n, ast.Call) and isinstance(n.func, ast.Attribute) and \
+                n.func.attr in ('append', 'insert') and isinstance(
+                    n.func.value, ast.Attribute) and isinstance(
+                        n.func.value.value, ast.Name) and \
+                n.func.value.value.id == reg.params[0]:
+            attrs.add(n.func.value.attr)
+    used = set(n.attr for n in ast.walk(he.node)
+               if isinstance(n, ast.Attribute) and isinstance(n.value,
+                                                              ast.Name)
+               and n.value.id == he.params[0])
+    if len(attrs) != 1 or not attrs <= used:
+        report.violation(R, 'register-handler:list', reg.path, reg.node,
+                         reg.qualname, 'handlers are registered in %s but '
+                         'the dispatch reads %s' % (sorted(attrs),
+                                                    sorted(used)))
+        return
+    attr = attrs.pop()
     F = Folder(db)
     for early in (False, True):
         lst = ['<first>', '<second>']
